@@ -607,6 +607,33 @@ pub fn generated_parametric() -> Vec<PGram> {
             }
         }
     }
+    // a parameter expression on the way: start: "x" a::K ; a::_ : b::EXPR [e::_] ; b::_ : W %if eq(_,1) | "z" %if ne(_,1)
+    // (e::_ : "" | "q" %if eq(_,77)). With W = "p" the rule a is a pure pass-through whose only content is the
+    // expression ("genp-thru-*"); with W = "" the empty derivation of a::K depends on the value EXPR computes
+    // ("genp-nullthru-*").
+    {
+        let exprs = [PExpr::SelfRef, PExpr::Incr(0, 64), PExpr::Decr(0, 64), PExpr::SetBit(0), PExpr::ClearBit(0), PExpr::BitOr(1), PExpr::BitAnd(1), PExpr::Const(1)];
+        let mut k = 0;
+        for e in exprs.iter() {
+            for start in [0u64, 1, 2] {
+                for (nullable, with_e) in [(false, false), (false, true), (true, true), (true, false)] {
+                    let b_first = if nullable { vec![] } else { vec![tt(b'p')] };
+                    let b = vec![Alt { cond: Cond::Cmp(Cmp::Eq, 0, 64, 1), syms: b_first }, Alt { cond: Cond::Cmp(Cmp::Ne, 0, 64, 1), syms: vec![tt(b'z')] }];
+                    let mut a_syms = vec![Sym::N(2, e.clone())];
+                    let mut nts = vec![vec![Alt { cond: Cond::True, syms: vec![tt(b'x'), Sym::N(1, c(start))] }], vec![], b];
+                    if with_e {
+                        a_syms.push(Sym::N(3, PExpr::SelfRef));
+                        nts.push(vec![Alt { cond: Cond::True, syms: vec![] }, Alt { cond: Cond::Cmp(Cmp::Eq, 0, 64, 77), syms: vec![tt(b'q')] }]);
+                    }
+                    nts[1] = vec![Alt { cond: Cond::True, syms: a_syms }];
+                    let bnf = Bnf { nts };
+                    let name: &'static str = Box::leak(format!("genp-{}thru-{k}", if nullable { "null" } else { "" }).into_boxed_str());
+                    k += 1;
+                    out.push(PGram { name, lark: print(&["start", "a", "b", "e"], &bnf), bnf });
+                }
+            }
+        }
+    }
     // left-recursive counting: l::p -> l::(p+1) "a" while p < k | "b"
     for k in 1..=3u64 {
         let l = vec![
